@@ -17,7 +17,10 @@ type C17Case struct {
 	AmbientName string   `json:"ambientName"`
 	// TwoClients (runner launch with TempDir): two clients are created from this one ClientConfig (one
 	// UnixSocketConfig) and alive at the same time; each has a socket directory of its own
-	TwoClients bool   `json:"twoClients,omitempty"`
+	TwoClients bool `json:"twoClients,omitempty"`
+	// RetryStart (runner launch): the RunnerFunc fails the first time it is called; Start is called again on
+	// the same client and the environment of that second launch is the one judged
+	RetryStart bool   `json:"retryStart,omitempty"`
 	E2E        bool   `json:"e2e"` // launch a real serving plugin and use it
 	E2EProto   string `json:"e2eProto"`
 }
